@@ -45,7 +45,9 @@ class Module(object):
             self.tree = canon.canonicalise(self.tree, rel)
         _link(self.tree, None, self)
         self._index = {}
+        self._aliases = {}
         self._build_index(self.tree, '')
+        self._build_aliases()
 
     def _build_index(self, node, prefix):
         for ch in ast.iter_child_nodes(node):
@@ -66,13 +68,27 @@ class Module(object):
             elif isinstance(ch, ast.ExceptHandler):
                 self._build_index(ch, prefix)
 
+    def _build_aliases(self):
+        # class-level `name = other_method` (e.g. `__setitem__ = _insert`, `on_add = on_up`): the name answers lookups with the function it is bound to;
+        # functions() lists each function once, under its own name
+        for q, c in list(self._index.items()):
+            if not isinstance(c, ast.ClassDef):
+                continue
+            for st in c.body:
+                if isinstance(st, ast.Assign) and len(st.targets) == 1 and isinstance(st.targets[0], ast.Name) and isinstance(st.value, ast.Name):
+                    tgt = self._index.get('%s.%s' % (q, st.value.id)) or self._aliases.get('%s.%s' % (q, st.value.id))
+                    if isinstance(tgt, (ast.FunctionDef, ast.AsyncFunctionDef)) and '%s.%s' % (q, st.targets[0].id) not in self._index:
+                        self._aliases['%s.%s' % (q, st.targets[0].id)] = tgt
+
     def has(self, qual):
-        return qual in self._index
+        return qual in self._index or qual in self._aliases
 
     def get(self, qual):
         try:
             return self._index[qual]
         except KeyError:
+            if qual in self._aliases:
+                return self._aliases[qual]
             raise AnalysisError('anchor vanished: %s::%s' % (self.rel, qual))
 
     def cls(self, name):
